@@ -3,9 +3,11 @@ package s3mem
 import (
 	"bytes"
 	"io"
+	"strings"
 	"time"
 
 	"github.com/johannesboyne/gofakes3"
+	"github.com/johannesboyne/gofakes3/internal/goskipiter"
 	"github.com/johannesboyne/gofakes3/internal/s3io"
 	"github.com/ryszard/goskiplist/skiplist"
 )
@@ -308,4 +310,22 @@ func (b *bucket) rmVersion(name string, versionID gofakes3.VersionID, at time.Ti
 	}
 
 	return result, nil
+}
+
+// hasObjectUpTo reports whether the bucket holds an object (not a delete
+// marker) whose name starts with prefix and sorts at or before last.
+func (b *bucket) hasObjectUpTo(prefix, last string) bool {
+	iter := goskipiter.New(b.objects.Iterator())
+	defer iter.Close()
+	iter.Seek(prefix)
+	for iter.Next() {
+		obj := iter.Value().(*bucketObject)
+		if obj.name > last || !strings.HasPrefix(obj.name, prefix) {
+			return false
+		}
+		if obj.data != nil && !obj.data.deleteMarker {
+			return true
+		}
+	}
+	return false
 }
